@@ -12,6 +12,7 @@ import time
 VERIF = os.path.dirname(os.path.dirname(os.path.abspath(__file__)))
 REPO = os.environ.get('VERIF_REPO', '/repo')
 CACHE = os.path.join(VERIF, '.cache')
+COV = os.environ.get('VERIF_COV')   # directory for an instrumented harness build and its profiles (tools/coverage.py)
 sys.path.insert(0, os.path.join(VERIF, 'gen'))
 
 ENV = dict(os.environ, CARGO_NET_OFFLINE='true')
@@ -134,9 +135,15 @@ def build_harness(shapes, profile='debug'):
         shutil.copy(os.path.join(REPO, 'Cargo.lock'), lock)
     flags = '--release' if profile == 'release' else ''
     binary = os.path.join(CACHE, 'target', profile, 'flatty-verif-harness')
+    env = None
+    if COV:
+        # coverage mode (tools/coverage.py): instrumented build in its own target directory
+        flags += ' --target-dir %s' % os.path.join(COV, 'target')
+        binary = os.path.join(COV, 'target', profile, 'flatty-verif-harness')
+        env = dict(ENV, RUSTFLAGS='-C instrument-coverage', RUSTUP_TOOLCHAIN='nightly')
     want = ['%s %s' % (sid, shp.sexp(t)) for sid, t in shapes]
     for attempt in range(2):
-        rc, out = sh('cargo build --offline %s' % flags, cwd=hdir, timeout=1800)
+        rc, out = sh('cargo build --offline %s' % flags, cwd=hdir, timeout=1800, env=env)
         if rc != 0:
             raise BuildError('harness build', out)
         # the binary must be the one built from these shapes (another process may have rebuilt it meanwhile)
@@ -198,7 +205,9 @@ def run_rust(harness, lines, shards=8, timeout=600):
         data = ('\n'.join(part) + '\n').encode()
         pending = None
         try:
-            p = subprocess.run([harness], input=data, stdout=subprocess.PIPE, stderr=subprocess.PIPE, timeout=timeout)
+            penv = dict(os.environ, LLVM_PROFILE_FILE=os.path.join(COV, 'prof', '%p-%m.profraw')) if COV else None
+            p = subprocess.run([harness], input=data, stdout=subprocess.PIPE, stderr=subprocess.PIPE, timeout=timeout,
+                               env=penv)
             outs[i] = (p.returncode, p.stdout.decode('utf-8', 'replace'), part)
         except subprocess.TimeoutExpired as ex:
             outs[i] = ('timeout', (ex.stdout or b'').decode('utf-8', 'replace'), part)
